@@ -808,6 +808,7 @@ func (t *Term) render(d int) string {
 // getValues are terms whose model value is requested when sat.
 type Query struct {
 	Asserts   []*Term
+	NBase     int // hypotheses, path condition and negated goal (what follows are instances)
 	GetValues []*Term
 	Axioms    []*Term
 }
